@@ -3,6 +3,8 @@
   Model: CrCube/Model/Smoothing.lean (smoothing.py as coded).  Spec: CrCube/Spec/SmoothingSpec.lean.
 -/
 import CrCube.Lemmas.Smoothing
+import CrCube.Lemmas.ValScale
+import CrCube.Lemmas.ScaleMean
 
 namespace CrCube.C20
 open CrCube CrCube.Smoothing CrCube.SmoothingSpec
@@ -50,8 +52,13 @@ theorem canSmooth_iff (s : Smoother) (n : Nat) :
   · unfold Smoother.canSmooth applies
     cases hc : s.isCatDate
     · simp [h0]
-    · by_cases h2 : (2 : Int) ≤ s.window <;> by_cases h3 : s.window ≤ (n : Int) <;>
-        simp [h0, h2, h3] <;> omega
+    · by_cases h2 : (2 : Int) ≤ s.window
+      · by_cases h3 : s.window ≤ (n : Int)
+        · simp [h0, h2, h3]
+        · simp [h0, h2, h3]
+      · by_cases h3 : s.window ≤ (n : Int)
+        · simp [h0, h2, h3]; omega
+        · simp [h0, h2, h3]
 
 /-- **smooth_eq_spec** (1-D, every smoother, every series, every window valid or not):
     the code's result is the property's smoothed series. -/
@@ -254,6 +261,20 @@ theorem smoothed_scale_mean (s : Smoother) (values : List Val) (cp : Blocks) (hb
   · rfl
   · simp [smoothedColumnsScaleMean, smooth2_eq_spec s cp.base hb]
 
+/-- … and that reduction is the plain scale mean Σ value·p / Σ p over the rows with a numeric value
+    (`SmoothingSpec.scaleMean`), for finite-or-NaN values and proportions: the driver's Spec value. -/
+theorem smoothed_scale_mean_spec (s : Smoother) (values : List Val) (cp : Blocks) (hb : Rect cp.base)
+    (hv : ∀ x ∈ values, finOrNan x = true)
+    (hp : ∀ j, ∀ x ∈ column (smoothedRows s.isCatDate s.window cp.base) j, finOrNan x = true) :
+    (smoothedColumnsScaleMean s values cp).1 =
+      (List.range (lastDim (smoothedRows s.isCatDate s.window cp.base))).map
+        (fun j => SmoothingSpec.scaleMean values (column (smoothedRows s.isCatDate s.window cp.base) j)) := by
+  rw [(smoothed_scale_mean s values cp hb).2]
+  unfold scaleMeanCols
+  apply List.map_congr_left
+  intro j _
+  exact weightedMean_eq_scaleMean values _ hv (hp j)
+
 /-- The same for the block of inserted (subtotal) COLUMNS holds whenever that block is not itself smoothable
     (fewer inserted columns than the window, in particular none) … -/
 theorem smoothed_scale_mean_subcols_partial (s : Smoother) (values : List Val) (cp : Blocks)
@@ -271,6 +292,45 @@ theorem smoothed_scale_mean_subcols_counterexample :
     (smoothedColumnsScaleMean s [3] cp).2 ≠ scaleMeanCols [3] (smoothedColumnProportions s cp).subCols := by
   decide +kernel
 
+/-! ### percentages -/
+
+theorem getD_map_scale (v : List Val) (k : Rat) (i : Nat) :
+    (v.map (· * Val.fin k)).getD i Val.nan = v.getD i Val.nan * Val.fin k := by
+  simp only [List.getD_eq_getElem?_getD, List.getElem?_map]
+  cases v[i]? <;> rfl
+
+theorem windowMean_scale (w : Nat) (hw : 1 ≤ w) (v : List Val) (t : Nat) (k : Rat) (hk : 0 < k) :
+    windowMean w v t * Val.fin k = windowMean w (v.map (· * Val.fin k)) t := by
+  unfold windowMean
+  have hwq : (0 : Rat) < (w : Rat) := by exact_mod_cast hw
+  show (_ / Val.fin (w : Rat)) * _ = _ / Val.fin (w : Rat)
+  rw [Val.div_mul_pos _ _ _ hwq hk, Val.sum_mul_pos _ _ hk, List.map_map]
+  congr 2
+  apply List.map_congr_left
+  intro j _
+  simp only [Function.comp, getD_map_scale]
+
+/-- **smoothed_percentages**: multiplying by a positive constant (100 for percentages) commutes with smoothing:
+    the smoothed percentages `100 · smoothed(p)` are the trailing means of the unsmoothed percentages `100 · p`
+    (NaN prefix, guards and all). -/
+theorem smoothed_percentages (cd : Bool) (w : Int) (v : List Val) (k : Rat) (hk : 0 < k) :
+    (smoothed cd w v).map (· * Val.fin k) = smoothed cd w (v.map (· * Val.fin k)) := by
+  unfold smoothed
+  rw [List.length_map]
+  by_cases h : applies cd w v.length = true
+  · have hh := h
+    simp only [applies, Bool.and_eq_true, decide_eq_true_eq] at hh
+    have hw : 1 ≤ w.toNat := by omega
+    simp only [h, if_true, smoothSeries, List.map_map, List.length_map]
+    apply List.map_congr_left
+    intro t _
+    simp only [Function.comp, smoothedAt]
+    by_cases ht : t + 1 < w.toNat
+    · simp only [ht, if_true]; rfl
+    · simp only [ht, if_false]
+      exact windowMean_scale _ hw v t k hk
+  · simp [h]
+
 /-! ### non-vacuity and samples -/
 
 example : (⟨3, true⟩ : Smoother).smooth1 [1, 2, 3, Val.nan, 5, 6, 7] =
@@ -283,6 +343,7 @@ example : (⟨1, true⟩ : Smoother).smooth1 [1, 2] = [1, 2] := by decide +kerne
 example : (⟨2, false⟩ : Smoother).smooth1 [1, 2] = [1, 2] := by decide +kernel         -- not CAT_DATE
 example : ((⟨2, true⟩ : Smoother).isCatDate = true ∧ (2:Int) ≤ 2 ∧ (2:Int) ≤ ([1, 2] : List Val).length) := by decide +kernel
 example : Rect [[1, 3, 5], [2, 2, Val.nan]] := by intro r hr; simp at hr; rcases hr with h | h <;> simp [h, lastDim]
+example : (∀ x ∈ ([3, Val.nan] : List Val), finOrNan x = true) := by decide
 example : factory {} true = .ok ⟨2, true⟩ := by
   simp [factory, SmoothingDict.effFunction, SmoothingDict.effWindow]
 example : factory { function := some "one_sided_moving_avg", window := some 3 } true = .ok ⟨3, true⟩ := by
